@@ -485,6 +485,8 @@ func TestC17Measured(t *testing.T) {
 		// a slow cleanup: none of that time belongs to the iteration measured next
 		prev := false
 		prevCleanup := time.Duration(r.Range(1000, 3000)) * time.Microsecond
+		ownCleanup := i%4 == 2
+		cleanupFor := time.Duration(r.Range(15, 40)) * time.Millisecond
 		sc := &scenarios.Scenario{Name: "c17", ScenarioFn: func(*f1testing.T) f1testing.RunFn {
 			return func(t *f1testing.T) {
 				if prev {
@@ -493,6 +495,11 @@ func TestC17Measured(t *testing.T) {
 						t.Fail()
 					}
 					return
+				}
+				if ownCleanup {
+					// the measured iteration's own cleanup takes long: however the body ends, that time is
+					// after the iteration's clock was stopped
+					t.Cleanup(func() { time.Sleep(cleanupFor) })
 				}
 				t0 := time.Now()
 				for time.Since(t0) < spend {
@@ -536,6 +543,12 @@ func TestC17Measured(t *testing.T) {
 			t0 := time.Now()
 			crashed, pv := kit.Guard(func() { as.Run(st) })
 			outer := int64(time.Since(t0))
+			if ownCleanup {
+				// the worker's call also spans the cleanup (at least cleanupFor): what is left is an upper
+				// bound for the time the iteration's clock may show
+				outer -= int64(cleanupFor)
+				o.Count("worker", "measured iteration has a slow cleanup of its own")
+			}
 			if crashed {
 				o.Fail("c17-worker-crash", "a panic escaped the iteration: "+kit.Str(fmt.Sprint(pv)))
 				break
